@@ -62,6 +62,11 @@ class C15(Check):
             cases.append(("entry %s 1 0 x 64" % hexs(data), dict(k="read", expect="pwreq")))
             cases.append(("entry %s 1 1 %s 64" % (hexs(data), hexs(pw + b"!")), dict(k="read", expect="reject", content=c.hex())))
             cases.append(("entry %s 0 1 %s 64" % (hexs(data), hexs(pw)), dict(k="read", expect="content", content=b"plain first entry".hex())))
+            # the right password over a source that delivers the archive in short pieces (the 12-byte encryption header
+            # arrives in several reads): same bytes as over a cursor
+            k_ = r.choice([1, 5, 7, 11])
+            cases.append(("entry_sched %s 1 1 %s %s %s 1" % (hexs(data), hexs(pw), hexs(bytes([k_]) * min(65535, 4 * len(data) // k_ + 64)), hexs(bytes([r.choice([1, 7, 64])]))),
+                          dict(k="sched", content=c.hex(), impl_only=True)))
         # ---- encrypted entries written over sinks that accept only part of each write (never fail): the buffered ciphertext
         #      must arrive completely; read back with the right password
         import wprog
@@ -181,6 +186,13 @@ class C15(Check):
                 os.remove(z)
                 if p.returncode != 0:
                     return "unzip -t rejects the archive written by the crate: %s" % p.stdout[-200:]
+            return None
+        if meta["k"] == "sched":
+            if not out.startswith("[SAME "):
+                return "right password over a short-reading source differs from the read over a cursor: " + out[:200]
+            mm = re.search(r"\[Ok x([0-9a-f]*)(?: \[[0-9 ]*\])?\]*$", out)
+            if not mm or mm.group(1) != meta["content"]:
+                return "right password over a short-reading source did not return the original bytes: " + out[-120:]
             return None
         kind, m, rd = parse_entry_out(out)
         exp = meta["expect"]
